@@ -229,7 +229,11 @@ func c17Read(out *core.Out, c *ws.Conn, exp []Ev, st *Stream, d map[string]inter
 	if mode == 1 {
 		// a generous read limit, and an application that looks at the underlying connection
 		// between reads (both are plain accessors as far as the stream is concerned)
-		c.SetReadLimit(1 << 20)
+		// (limits of every magnitude relative to the read buffer, all above the largest message
+		// of these streams: 120 bytes, at most 131 on the wire when compressed)
+		lim := []int64{200, 230, 1000, 4000, 1 << 20}[len(st.Bytes)%5]
+		c.SetReadLimit(lim)
+		out.Count("read_limit_set_before_the_first_read", 1)
 	}
 	for i := 0; ; i++ {
 		if mode == 1 {
